@@ -124,11 +124,15 @@ def c04_bar(jb, pb, weight):
     obs, m2 = c04_observed(jb, pb)
     L = F(jb["Len"])
     names = ("local fx", "local fy", "moment about the bar start")
+    # positions closer than 1e-10 are identified (the smaller one is kept): a distributed load may start or end up to
+    # 1e-10 (in t) away from where it was declared, which moves intensity x 1e-10 x L of its resultant
+    dens_f = sum(max(abs(F(d["V0"])), abs(F(d["V1"]))) for d in (jb.get("DL") or []) if d["Term"] != "mz")
+    dens_m = sum(max(abs(F(d["V0"])), abs(F(d["V1"]))) for d in (jb.get("DL") or []) if d["Term"] == "mz")
     for k in range(3):
         scale = m1[k] + m2[k]
-        tol = REL * scale
+        tol = REL * scale + 2 * EPS * L * dens_f
         if k == 2:
-            tol += 2 * EPS * L * (m1[1] + m2[1] + 1)  # positions are identified up to 1e-10
+            tol += 2 * EPS * L * (m1[1] + m2[1] + 1) + 2 * EPS * L * (dens_m + dens_f * L)  # positions are identified up to 1e-10
         if abs(exp[k] - obs[k]) > tol:
             fails.append("bar %s: %s applied %s, on the slice nodes %s" % (jb["ID"], names[k], float(exp[k]), float(obs[k])))
     # net = ext + left + right
